@@ -2,6 +2,7 @@
 from .. import common as C, structs as S, valgen as V, refcodec as R
 
 LEAN_MODULES = ["ZvtVerif.Properties.C14"]
+TRANSLATED = {"structs"}      # translated tables this property consumes (a translator problem elsewhere does not break its tie)
 ASSUMPTIONS = ["canonical value domain of DESIGN.md §5.1 for the packets that are extended by a suffix"]
 
 
